@@ -236,7 +236,9 @@ def run_thermal(spec):
     if e4 > 1e-9:
         return Out(ok=False, msg="direction-projected mean-square displacement differs from d.U.d: %.3e" % e4)
     # link: Gamma-centred mesh equal to the supercell multiplicities == diagonal blocks of the supercell covariance
-    if fmax is None:
+    # (only for dynamically stable models: the random-displacement statistics treat an imaginary mode as |omega| by documented design,
+    # the thermal-displacement sums leave it out)
+    if fmax is None and f.min() > -fmin:
         C, _ci, nkeep, gap, _f = canonical_cov(ph.supercell, fc, 300.0, "quantum", fmin, ph.unit_conversion_factor)
         if gap > 1e-6:
             blocks = np.array([C[3 * i:3 * i + 3, 3 * i:3 * i + 3] for i in ph.primitive.p2s_map])
